@@ -33,10 +33,10 @@ class Unit:
 
 
 class Session:
-    def __init__(self, tier="quick", seed=0, repo=None):
+    def __init__(self, tier="quick", seed=0, repo=None, prog=None):
         self.tier = tier
         self.seed = seed
-        self.prog = Program(repo)
+        self.prog = prog if prog is not None else Program(repo)
         self.units = []
         self.assumptions = []
         self.trusted = []
